@@ -9,7 +9,14 @@
     step) uniforms, every qubit the inverse-cdf image of its own uniform with X in bit j and Z in bit n+j,
     flips never for q = 0 / always for q = 1.
 (c) statistical support with fixed seeds: single-qubit and adjacent-pair frequencies over 2*10^5 draws against
-    the distribution and independence; failing only beyond 6 sigma."""
+    the distribution and independence; failing only beyond 6 sigma.
+(d) histories of calls (harness/c17_extra.py): several instances of one parameterised model class at the same
+    probability in one process, one instance at several probabilities, caller overwriting a returned error; every
+    instance is judged against its own stated distribution.
+(e) joint statistics of fault-tolerant runs (harness/c17_extra.py): every pair of different output bits of a run
+    (qubit hit / X part / Z part in any step, syndrome bit flipped in any step) and every such pair across consecutive
+    runs of one generator must be independent: exact 2x2 contingency tests, Bonferroni over all pairs at family error
+    rate 1e-9, plus pooled (step lag, index offset) and weight-against-flip-count correlations."""
 import bisect
 import json
 import logging
@@ -19,6 +26,7 @@ from fractions import Fraction as F
 import numpy as np
 
 from harness.common import bitstr, exc_class, coq_list
+from harness import c17_extra as c17x
 
 LET = 'IXYZ'
 EDGE = 2.0 ** -45          # uniforms this close to a cumulative bound are not compared (float vs exact cdf)
@@ -91,8 +99,13 @@ def run(ctx):
     ctx.rule = ('every IID model (depolarizing, bit/phase/bit-phase flip, biased-depolarizing bias in [1e-3,1e3] all axes, '
                 'biased-Y-X bias 0 or in [1e-2,1e2] with p in [0.01,0.99], centre-slice pos in (-1,1]); p in {0,1} and '
                 'random; library codes and stub codes n = 4..%d; seeds 0..2^32; run_once_ftp / run_ftp with T <= 6, '
-                'q in {None, 0, 1, random}; statistical support %d draws per configuration, 6 sigma. nontrivial = at '
-                'least two non-zero error letters and n >= 9' % (ctx.pick(400, 800), 200000))
+                'q in {None, 0, 1, random}; statistical support %d draws per configuration, 6 sigma; histories: 5 instances '
+                'of each parameterised class at one p, in order and reversed, one instance at several p; joint statistics: '
+                '%d fault-tolerant configurations (4+ fixed, the rest random: code n <= %d, any IID model, p in [0.05,0.6], '
+                'q None or in [0.05,0.7], T in 2..6, run_ftp or run_once_ftp on one generator) of %d runs each, all pairs of '
+                'output bits within a run and across consecutive runs, exact tests at family error rate 1e-9. nontrivial = at '
+                'least two non-zero error letters and n >= 9' % (ctx.pick(400, 800), 200000, ctx.pick(7, 16), ctx.pick(24, 61),
+                                                                 ctx.pick(1500, 4000)))
     ctx.props_obligations()
     ctx.trusted += [
         'numpy SeedSequence / PCG64 / Generator.random as the uniform source (uniformity and independence trusted; '
@@ -435,6 +448,57 @@ def run(ctx):
                 viol('flip-independence', 'joint flips over %s are %.1f sigma from q^2' % (name, z), dict(rep, kind=name, count=c11))
         stats.append({'flips': True, 'q': q, 'bits': int(N), 'worst_sigma': round(worst, 2)})
         ctx.count(('stat-flips', q), True, 'statistical', n=1)
+    # ------------------------------------------------------------------ (d) histories of calls, fixed seeds
+    def f_biased(r):
+        return BiasedDepolarizingErrorModel(r.choice([0.5, 10.0, 100.0, 1e-3, 1e3, 10 ** r.uniform(-3, 3)]), r.choice('XYZ'))
+
+    def f_yx(r):
+        return BiasedYXErrorModel(r.choice([0.0, 1.0, 10.0, 100.0, 10 ** r.uniform(-2, 2)]))
+
+    def f_slice(r):
+        zeros = r.sample(range(3), r.choice([1, 2]))
+        lim = tuple(0 if i in zeros else r.choice([1, 2, 0.5, r.random() + 0.01]) for i in range(3))
+        return CenterSliceErrorModel(lim, r.choice([1.0, 0.5, 0.0, -0.5, r.uniform(-0.999, 1)]))
+
+    def p_any(r):
+        return r.choice([0.1, 0.2, 0.5, 0.05 + 0.9 * r.random()])
+
+    c17x.history_sweeps(ctx, [
+        ('biased-depolarizing', f_biased, [BiasedDepolarizingErrorModel(0.5, 'Y'), BiasedDepolarizingErrorModel(100.0, 'Y'),
+                                           BiasedDepolarizingErrorModel(10.0, 'X'), BiasedDepolarizingErrorModel(10.0, 'Z')], p_any),
+        ('biased-yx', f_yx, [BiasedYXErrorModel(10.0), BiasedYXErrorModel(0.0), BiasedYXErrorModel(1.0)], p_any),
+        ('centre-slice', f_slice, [CenterSliceErrorModel((1, 0, 0), 1.0), CenterSliceErrorModel((0, 0, 1), 1.0),
+                                   CenterSliceErrorModel((1, 2, 0), -0.5)], p_any),
+        ('parameterless', lambda r: r.choice([DepolarizingErrorModel, BitFlipErrorModel, PhaseFlipErrorModel,
+                                              BitPhaseFlipErrorModel])(), [], p_any),
+    ], StubCode, viol, stats)
+
+    # ------------------------------------------------------------------ (e) joint statistics of fault-tolerant runs
+    R = ctx.pick(1500, 4000)
+    jcfg = [
+        dict(code=ToricCode(3, 3), model=DepolarizingErrorModel(), p=0.15, q=None, T=4, api='run_ftp', runs=R),
+        dict(code=PlanarCode(4, 4), model=BitFlipErrorModel(), p=0.3, q=0.1, T=3, api='run_once_ftp', runs=R),
+        dict(code=FiveQubitCode(), model=BiasedDepolarizingErrorModel(10.0, 'Z'), p=0.4, q=0.5, T=6, api='run_once_ftp', runs=R),
+        dict(code=SteaneCode(), model=CenterSliceErrorModel((1, 2, 0), -0.5), p=0.5, q=0.25, T=5, api='run_ftp', runs=R),
+    ]
+    jcodes = [FiveQubitCode(), SteaneCode(), PlanarCode(2, 2), PlanarCode(3, 3), ToricCode(2, 2), ToricCode(3, 3),
+              RotatedPlanarCode(3, 3), Color666Code(3), ToricCode(3, 4)]
+    if not ctx.quick:
+        jcfg += [dict(code=PlanarCode(5, 5), model=DepolarizingErrorModel(), p=0.1, q=0.2, T=6, api='run_once_ftp', runs=R),
+                 dict(code=Color666Code(5), model=BiasedYXErrorModel(3.0), p=0.2, q=0.03, T=3, api='run_ftp', runs=R)]
+        jcodes += [PlanarCode(4, 5), RotatedPlanarCode(5, 4), ToricCode(4, 4)]
+    while len(jcfg) < ctx.pick(7, 16):
+        m, kind = rand_model()
+        p = rng.uniform(0.05, 0.6)
+        try:
+            fd = valid_dist(m.probability_distribution(p))
+        except Exception:  # noqa
+            fd = None
+        if fd is None:
+            continue
+        jcfg.append(dict(code=rng.choice(jcodes), model=m, p=p, q=rng.choice([None, rng.uniform(0.05, 0.7), rng.uniform(0.05, 0.7)]),
+                         T=rng.randint(2, 6), api=rng.choice(['run_ftp', 'run_once_ftp']), runs=R))
+    c17x.joint_statistics(ctx, app, ScriptedDecoder, jcfg, viol, stats)
     ctx.extra['statistical_support'] = stats
 
     # ------------------------------------------------------------------ in-kernel shard
@@ -469,7 +533,27 @@ def replay(path):
         from qecsim.models.generic import (DepolarizingErrorModel, BitFlipErrorModel, PhaseFlipErrorModel,  # noqa
                                            BitPhaseFlipErrorModel, BiasedDepolarizingErrorModel, BiasedYXErrorModel,
                                            CenterSliceErrorModel)
-        if 'n' in r and 'seed' in r and 'model' in r:
+        if r.get('kind') == 'joint':
+            from qecsim import app
+            from qecsim.models.basic import FiveQubitCode, SteaneCode  # noqa
+            from qecsim.models.planar import PlanarCode  # noqa
+            from qecsim.models.toric import ToricCode  # noqa
+            from qecsim.models.rotatedplanar import RotatedPlanarCode  # noqa
+            from qecsim.models.color import Color666Code  # noqa
+            from harness.proxies import ScriptedDecoder
+            logging.getLogger('qecsim').setLevel(logging.CRITICAL)
+            cfg = dict(r, code=eval(r['code']), model=eval(r['model'], dict(globals(), np=np, **locals())))
+            got = c17x.collect_runs(app, ScriptedDecoder, cfg)
+            if isinstance(got, str):
+                print('now:', got)
+            else:
+                found = []
+                c17x.joint_tests({k: r[k] for k in ('code', 'model', 'p', 'q', 'T', 'api', 'runs', 'seed')}, *got,
+                                 lambda key, what, rep: found.append((key, what)))
+                print('now: %d dependence reports' % len(found))
+                for key, what in found[:6]:
+                    print(' ', key, '-', what)
+        elif 'n' in r and 'seed' in r and 'model' in r:
             m = eval(r['model'])
             p = float.fromhex(r['p_hex'])
             e = m.generate(StubCode(r['n']), p, np.random.default_rng(r['seed']))
